@@ -89,6 +89,12 @@ def make(idx, seed):
         "import_pub": rnd.random() < 0.3,
         "only_order": rnd.randint(0, 2), "kindvar": rnd.random() < 0.15,
     }
+    # drawn last so that the other features of program idx do not depend on it:
+    # a SELECT CASE whose selector / case values have types the reader cannot
+    # resolve (imported); the reader then adds the psyclone_internal_cmp generic
+    # interface and its three implementations to the module
+    feats["selcmp"] = shape == "module" and rnd.random() < 0.22
+    feats["selcmp_use"] = rnd.choice(["only", "wild"])
     nb = rnd.randint(1, 3)
     body_ids = [rnd.randrange(len(BODIES)) for _ in range(nb)]
     if shape != "module":
@@ -114,6 +120,9 @@ def make(idx, seed):
                                                     "fz=>fa, fb=>fc, fa=>fq"][feats["only_order"]])
         if feats["use_wild"]:
             src.append("  use b_mod")
+        if feats["selcmp"]:
+            src.append("  use o_mod, only : kind_flag, thing" if feats["selcmp_use"] == "only"
+                       else "  use o_mod")
         src.append("  implicit none")
         decls = []
         if feats["iface"]:
@@ -157,6 +166,11 @@ def make(idx, seed):
         src += ["  " + l for l in _routine_s1(rnd, feats, body_ids)]
         src += ["  " + l for l in _routine_s2()]
         src += ["  " + l for l in _routine_f1(feats["fvar"])]
+        if feats["selcmp"]:
+            src += ["  " + l for l in [
+                "subroutine s3(c)", "  integer, intent(inout) :: c", "",
+                "  SELECT CASE (thing%flag)", "  CASE (kind_flag)", "    c = 1",
+                "  CASE DEFAULT", "    c = 2", "  END SELECT", "", "end subroutine s3"]]
         src += ["", "end module " + name]
     return f"g{idx}", "\n".join(src) + "\n", feats
 
